@@ -795,6 +795,9 @@ func extraCommand(cmd string, args []string) bool {
 	case "agenttable":
 		runAgentTable(args)
 		return true
+	case "ethtable":
+		runEthTable(args)
+		return true
 	case "binconn":
 		runBinConn(args)
 		return true
